@@ -6,7 +6,7 @@ use crate::model::*;
 use crate::tape::Tape;
 use serde_avro_fast::schema::SchemaMut;
 
-pub const RULE: &str = "case = (generated schema AST, one JSON spelling of it: namespace in dotted name / attribute / inherited / explicit empty string, references by simple / full / leading-dot name, optional forward reference (definition moved to a later use), primitives as string or object, permuted attributes, doc/aliases/default/order/unknown attributes, whitespace, decimal scale omitted when 0) and, for the negative half, one of four single mutations (unknown reference, duplicate definition of a fullname, required attribute removed, record made to contain itself through records only); \
+pub const RULE: &str = "case = (generated schema AST, one JSON spelling of it: namespace in dotted name / attribute / inherited / explicit empty string, references by simple / full / leading-dot name, optional forward references (one to three definitions moved to a later use; one positive case in sixteen wraps the schema in a record where two types with the SAME simple name in two namespaces are both referenced by their users before either is defined), primitives as string or object, permuted attributes, doc/aliases/default/order/unknown attributes, whitespace, decimal scale omitted when 0) and, for the negative half, one of four single mutations (unknown reference, duplicate definition of a fullname, required attribute removed, record made to contain itself through records only); \
 non-trivial = the document has >=2 named types in >=2 namespaces, or an explicit empty namespace, or a forward reference, or a reference spelled from inside a different namespace, or is a negative case; distinct = hash of the document text";
 
 /// Move the definition of a named type to one of its later uses (forward reference).
@@ -233,7 +233,62 @@ pub fn run(tape: &[u8], ctx: &mut Ctx) {
 	let f = schema_labels(&ast0, ctx);
 	let negative = t.chance(70);
 	if !negative {
-		let forward = if t.chance(80) { make_forward(&mut t, &ast0) } else { None };
+		let mut forward = if t.chance(80) { make_forward(&mut t, &ast0) } else { None };
+		// sometimes move one or two more definitions (several types pending at once, possibly with the
+		// same simple name in different namespaces); the extra choices are drawn from a copy of the tape
+		// so that the rest of the case decodes as before
+		if forward.is_some() {
+			let mut t2 = t.clone();
+			let mut more = 0;
+			while more < 2 && t2.chance(150) {
+				match make_forward(&mut t2, forward.as_ref().unwrap()) {
+					Some(f2) => forward = Some(f2),
+					None => break,
+				}
+				more += 1;
+			}
+			if more > 0 {
+				ctx.label("spelling:several-forward-references");
+			}
+		}
+		// one positive case in sixteen (decided on a copy of the tape): two named types with the SAME simple
+		// name in two different namespaces, both referenced - from inside their own namespace - before
+		// either is defined, wrapped around the generated schema
+		let twins = {
+			let mut t3 = t.clone();
+			if t3.chance(16) && !Env::new(&ast0).defs.keys().any(|k| k.rsplit('.').next().map(|n| n.starts_with("Tw")).unwrap_or(false)) {
+				const NS: &[&str] = &["", "a", "a.b", "b", "n_1"];
+				let i = t3.below(NS.len());
+				let j = (i + 1 + t3.below(NS.len() - 1)) % NS.len();
+				let full = |ns: &str, n: &str| if ns.is_empty() { n.to_string() } else { format!("{ns}.{n}") };
+				let def = |t3: &mut Tape, name: String| match t3.below(3) {
+					0 => MSchema::plain(MType::Enum { name, symbols: vec!["P".into(), "Q".into()] }),
+					1 => MSchema::plain(MType::Fixed { name, size: 1 + t3.below(8) }),
+					_ => MSchema::plain(MType::Record { name, fields: vec![("v".into(), MSchema::plain(MType::Int))] }),
+				};
+				let user = |ns: &str, n: &str| MSchema::plain(MType::Record { name: full(ns, n), fields: vec![("x".into(), MSchema::plain(MType::Ref(full(ns, "Tw"))))] });
+				let mut fields = vec![("a".to_string(), user(NS[i], "TwA")), ("b".to_string(), user(NS[j], "TwB"))];
+				if t3.bool() {
+					fields.push(("g".to_string(), forward.clone().unwrap_or_else(|| ast0.clone())));
+				}
+				let d1 = def(&mut t3, full(NS[i], "Tw"));
+				let d2 = def(&mut t3, full(NS[j], "Tw"));
+				if t3.bool() {
+					fields.push(("d1".to_string(), d1));
+					fields.push(("d2".to_string(), d2));
+				} else {
+					fields.push(("d2".to_string(), d2));
+					fields.push(("d1".to_string(), d1));
+				}
+				Some(MSchema::plain(MType::Record { name: full(NS[t3.below(NS.len())], "TwRoot"), fields }))
+			} else {
+				None
+			}
+		};
+		if twins.is_some() {
+			ctx.label("spelling:same-simple-name-pending-in-two-namespaces");
+			forward = twins;
+		}
 		let is_forward = forward.is_some();
 		let ast = forward.unwrap_or_else(|| ast0.clone());
 		let (text, used) = {
